@@ -21,6 +21,8 @@ type loadOpts struct {
 	GOOS   string
 	GOARCH string
 	Deps   bool // load dependency syntax too (needed for SSA)
+
+	NoNormalise bool // analyse the text as it is (inventory generation)
 }
 
 func load(o loadOpts) (*Ctx, error) {
@@ -48,6 +50,19 @@ func load(o loadOpts) (*Ctx, error) {
 	mode := packages.NeedName | packages.NeedFiles | packages.NeedCompiledGoFiles | packages.NeedImports | packages.NeedDeps |
 		packages.NeedTypes | packages.NeedSyntax | packages.NeedTypesInfo | packages.NeedTypesSizes | packages.NeedModule
 	cfg := &packages.Config{Mode: mode, Dir: o.Dir, Env: env, Tests: o.Tests, Fset: token.NewFileSet()}
+	var norm *normResult
+	if !o.NoNormalise {
+		// helpers unknown to the frozen function inventory are inlined back into their callers (normalise.go)
+		nenv := append([]string{}, env...)
+		var nerr error
+		norm, nerr = normalise(o.Dir, nenv)
+		if nerr != nil {
+			return nil, fmt.Errorf("normalisation: %v", nerr)
+		}
+		if len(norm.Overlay) > 0 {
+			cfg.Overlay = norm.Overlay
+		}
+	}
 	pkgs, err := packages.Load(cfg, "./...")
 	if err != nil {
 		return nil, err
@@ -55,7 +70,7 @@ func load(o loadOpts) (*Ctx, error) {
 	if len(pkgs) == 0 {
 		return nil, fmt.Errorf("no packages loaded from %s", o.Dir)
 	}
-	c := &Ctx{RepoDir: o.Dir, Fset: cfg.Fset, byPath: map[string]*packages.Package{}, All: map[string]*packages.Package{}, Variant: variant,
+	c := &Ctx{Norm: norm, RepoDir: o.Dir, Fset: cfg.Fset, byPath: map[string]*packages.Package{}, All: map[string]*packages.Package{}, Variant: variant,
 		byObj: map[*types.Func]*FuncInfo{}, byLit: map[*ast.FuncLit]*FuncInfo{}, litOfVar: map[*types.Var]*FuncInfo{}}
 	var errs []string
 	packages.Visit(pkgs, nil, func(p *packages.Package) {
